@@ -97,12 +97,19 @@ def run_case(case):
             "std": std, "nfind": len(std["findings"])}
 
 
+SEQ = [0]
+
+
 def _work(batch):
     sys.setrecursionlimit(3000)
     out = []
     for c in batch:
+        SEQ[0] += 1
         try:
-            out.append(run_case(c))
+            r = run_case(c)
+            if r is not None:
+                r["worker"] = [os.getpid(), SEQ[0]]
+            out.append(r)
         except Exception as e:      # the harness itself must not hide a crash of the implementation
             out.append({"crash": f"{type(e).__name__}: {e}", "steps": [], "bad": [
                 {"step": "crash", "error": f"{type(e).__name__}: {e}"}], "known": False, "line": None,
@@ -151,6 +158,44 @@ def oracle_seeds(hexes, seeds):
                     return {"hex": h, "hashseed": s, "observable": k, "seed0": str(a[k])[:300],
                             "other": str(b[k])[:300],
                             "oracle": "answer differs between processes with different PYTHONHASHSEED"}
+    return None
+
+
+def first_diff(queries, a, b):
+    """first step where two answer lists differ, ignoring properties-derived answers after a raising
+    properties read (known finding D20)"""
+    tainted = False
+    for i, (q, x, y) in enumerate(zip(queries, a, b)):
+        if x != y and not (tainted and q in cachelib.PROPS_VIEWS):
+            return i
+        if q in cachelib.PROPS_VIEWS and (x.startswith("ERR") or y.startswith("ERR")):
+            tainted = True
+    return None
+
+
+def oracle_context(case, context):
+    """answers must not depend on what ELSE the process analysed before: the history alone in a new
+    process vs the same history after other pickles (first each single predecessor, then all of them)"""
+    from harness import c14
+    me = {"hex": case["hex"], "queries": case["queries"]}
+    ctx = [{"hex": c["hex"], "queries": c["queries"]} for c in context]
+    jobs = [{"mode": "c13", "histories": [me]}] + [{"mode": "c13", "histories": [c, me]} for c in ctx[::-1][:400]]
+    if ctx:
+        jobs.append({"mode": "c13", "histories": ctx + [me]})
+    ans = c14.isolated_answers(jobs)
+    alone = ans[0][0] if ans and ans[0] else None
+    if alone is None:
+        return None
+    for job, a in zip(jobs[1:], ans[1:]):
+        if not a or a[-1] is None:
+            continue
+        k = first_diff(case["queries"], a[-1], alone)
+        if k is not None:
+            return {"hex": case["hex"], "queries": case["queries"], "context": job["histories"][:-1],
+                    "first": {"step": k, "query": case["queries"][k], "alone_in_a_new_process": alone[k][:300],
+                              "after_the_context_histories": a[-1][k][:300]},
+                    "oracle": "the answers for the same bytes differ depending on which other pickles the "
+                              "process analysed before"}
     return None
 
 
@@ -330,6 +375,17 @@ def main(tier, seed):
             why = oracle_case({"hex": m["hex"], "queries": m["queries"]})
             if why:
                 return why
+        for m in (bad_free + mism)[:3]:     # what did the same worker process analyse before this history?
+            i = next((j for j, c in enumerate(cases) if c["hex"] == m["hex"] and c["queries"] == m["queries"]), None)
+            if i is None or not results[i] or not results[i].get("worker"):
+                continue
+            pid, seq = results[i]["worker"]
+            ctx = sorted(((r["worker"][1], c) for c, r in zip(cases, results)
+                          if r and r.get("worker") and r["worker"][0] == pid and r["worker"][1] < seq),
+                         key=lambda t: t[0])
+            why = oracle_context(cases[i], [c for _, c in ctx])
+            if why:
+                return why
         return None
 
     report_broken_obligations(chk, search)
@@ -343,7 +399,9 @@ def replay(path):
         print("replay: no concrete input recorded; re-running the quick check")
         return main("quick", doc.get("seed", 0))
     sys.setrecursionlimit(3000)
-    if "hashseed" in case:
+    if "context" in case:
+        why = oracle_context(case, case["context"])
+    elif "hashseed" in case:
         why = oracle_seeds([case["hex"]], [case["hashseed"]])
     else:
         why = oracle_case({"hex": case["hex"], "queries": case.get("queries", [])})
